@@ -209,3 +209,183 @@ Definition c02_violation (c : case) : bool :=
 Definition mismatches (cs : list case) : list Z := map c_id (filter model_mismatch cs).
 Definition c01_violations (cs : list case) : list Z := map c_id (filter c01_violation cs).
 Definition c02_violations (cs : list case) : list Z := map c_id (filter c02_violation cs).
+
+(* ================================================================================================
+   Level 2: the HTTP handlers.  Operations: an HTTP push arrives (its parser output is known), PlanFlush,
+   let a worker call Do, let a Do return.  After each operation every enabled step of handlers, sub-pushes
+   and fetch loops is taken until nothing is enabled (the harness waits for that quiescence).  Promises are
+   internal to doPush, so only dials, swaps, blocks, returns of Do and answers are observed; concurrent
+   sub-pushes reach a worker in an order the harness does not control, so blocks are compared as sets of
+   rows and the events of one operation as a multiset. *)
+Inductive op2 :=
+ | O2Http (items : list item)
+ | O2Plan (s : nat)
+ | O2Send (s : nat)
+ | O2Ret (s : nat) (ok : bool).
+
+Fixpoint first_some (g : gstate) (l : list gact) : option (gstate * list event) :=
+  match l with
+  | [] => None
+  | a :: t => match gstep g a with Some r => Some r | None => first_some g t end
+  end.
+
+Fixpoint find_worker (l : list svc) (i : nat) (grpid : nat) (k : kind) : option nat :=
+  match l with
+  | [] => None
+  | sv :: t => if Nat.eqb (grp sv) grpid && kind_eqb (kd sv) k then Some i else find_worker t (S i) grpid k
+  end.
+
+Definition handler_acts (g : gstate) (h : nat) : list gact :=
+  match nth_error (hs g) h with
+  | None => []
+  | Some hd =>
+      GItem h ::
+      flat_map (fun i =>
+                  match nth_error (h_subs hd) i with
+                  | Some sp =>
+                      GSubGet h i ::
+                      match find_worker (svcs g) 0 (sp_svc sp) (sp_kind sp) with
+                      | Some s => [GSubReq h i s]
+                      | None => []
+                      end
+                  | None => []
+                  end) (seq 0 (length (h_subs hd)))
+      ++ [GAnswer h]
+  end.
+
+(* all enabled handler steps, repeatedly *)
+Fixpoint sat_handlers (fuel : nat) (g : gstate) : gstate * list event :=
+  match fuel with
+  | O => (g, [])
+  | S f =>
+      match first_some g (flat_map (handler_acts g) (seq 0 (length (hs g)))) with
+      | None => (g, [])
+      | Some (g', es) => let '(g'', es') := sat_handlers f g' in (g'', es ++ es')
+      end
+  end.
+
+Fixpoint settle2 (fuel : nat) (g : gstate) (dls : list (list bool)) : gstate * list (list bool) * list event :=
+  match fuel with
+  | O => (g, dls, [])
+  | S f =>
+      let '(g1, e1) := sat_handlers 200 g in
+      let '(g2, dls', e2) := settle_all g1 0 dls in
+      match e1 ++ e2 with
+      | [] => (g2, dls', [])
+      | es => let '(g3, dls'', e3) := settle2 f g2 dls' in (g3, dls'', es ++ e3)
+      end
+  end.
+
+Definition op2_act (o : op2) : gact :=
+  match o with
+  | O2Http items => GNewHandler items
+  | O2Plan s => GSvc s SPlan
+  | O2Send s => GSvc s SSend
+  | O2Ret s ok => GSvc s (SDoReturn ok)
+  end.
+
+Fixpoint run_ops2 (g : gstate) (dls : list (list bool)) (ops : list op2) : option (list (list event)) :=
+  match ops with
+  | [] => Some []
+  | o :: rest =>
+      match gstep g (op2_act o) with
+      | None => None
+      | Some (g1, e1) =>
+          let '(g2, dls', e2) := settle2 20 g1 dls in
+          match run_ops2 g2 dls' rest with
+          | None => None
+          | Some l => Some ((e1 ++ e2) :: l)
+          end
+      end
+  end.
+
+(* what is visible of an event at level 2 *)
+Inductive vis :=
+ | VDial (s : nat) (ok : bool) | VSwp (s : nat) | VSnd (s : nat) (rows : list N) | VDn (s : nat) (ok : bool)
+ | VAns (h : nat) (ok : bool).
+
+Fixpoint insertN (x : N) (l : list N) : list N :=
+  match l with [] => [x] | y :: t => if N.leb x y then x :: l else y :: insertN x t end.
+Definition sortN (l : list N) : list N := fold_right insertN [] l.
+
+Definition vis_of (e : event) : list vis :=
+  match e with
+  | EDial s ok => [VDial s ok]
+  | ESwap s => [VSwp s]
+  | ESend s k b => [VSnd s (sortN (map fst (nth (keycol k) b [])))]
+  | EDone s ok => [VDn s ok]
+  | EAnswer h _ ok => [VAns h ok]
+  | _ => []
+  end.
+Fixpoint listN_eqb (a b : list N) : bool :=
+  match a, b with
+  | [], [] => true
+  | x :: a', y :: b' => N.eqb x y && listN_eqb a' b'
+  | _, _ => false
+  end.
+Definition vis_eqb (a b : vis) : bool :=
+  match a, b with
+  | VDial s ok, VDial s' ok' => Nat.eqb s s' && Bool.eqb ok ok'
+  | VSwp s, VSwp s' => Nat.eqb s s'
+  | VSnd s r, VSnd s' r' => Nat.eqb s s' && listN_eqb r r'
+  | VDn s ok, VDn s' ok' => Nat.eqb s s' && Bool.eqb ok ok'
+  | VAns h ok, VAns h' ok' => Nat.eqb h h' && Bool.eqb ok ok'
+  | _, _ => false
+  end.
+Fixpoint remove_vis (x : vis) (l : list vis) : option (list vis) :=
+  match l with
+  | [] => None
+  | y :: t => if vis_eqb x y then Some t else match remove_vis x t with Some t' => Some (y :: t') | None => None end
+  end.
+Fixpoint vis_perm (a b : list vis) : bool :=
+  match a with
+  | [] => is_nil b
+  | x :: a' => match remove_vis x b with Some b' => vis_perm a' b' | None => false end
+  end.
+Fixpoint obs2_eqb (a b : list (list event)) : bool :=
+  match a, b with
+  | [], [] => true
+  | x :: a', y :: b' => vis_perm (flat_map vis_of x) (flat_map vis_of y) && obs2_eqb a' b'
+  | _, _ => false
+  end.
+
+Record case2 := {
+  d_id : Z;
+  d_cfg : list (kind * nat * Z);
+  d_attempts : N;
+  d_dials : list (list bool);
+  d_drained : bool;
+  d_handlers : nat;                  (* number of HTTP pushes of the script *)
+  d_ops : list op2;
+  d_obs : list (list event)          (* observed: EDial / ESwap / ESend (table of the recognised rows) / EDone / EAnswer *)
+}.
+
+Definition op2_wf (o : op2) : bool :=
+  match o with O2Http items => forallb item_wf items | _ => true end.
+
+Definition model_mismatch2 (c : case2) : bool :=
+  match run_ops2 (ginit (d_cfg c) (d_attempts c)) (d_dials c) (d_ops c) with
+  | None => true
+  | Some l => negb (obs2_eqb l (d_obs c))
+  end.
+
+(* C01 on the observed events: success answers only for pushes whose rows are all in accepted blocks; at most one
+   answer per push; after a drain every push has been answered *)
+Definition c01_violation2 (c : case2) : bool :=
+  let es := concat (d_obs c) in
+  let n := length (d_cfg c) in
+  negb (is_some (run_mon (amon_step (forallb op2_wf (d_ops c))) (amon_init n) es) &&
+        one_answer_b es &&
+        (if d_drained c then forallb (fun h => existsb (Nat.eqb h) (answered es)) (seq 0 (d_handlers c)) else true)).
+
+(* C02 on the observed blocks: tables of distinct rows (the harness reports a block whose columns differ in
+   length, or that holds an unknown row, as a block that is no table) *)
+Definition good_block2 (k : kind) (b : block) : bool :=
+  let rids := map fst (nth (keycol k) b []) in
+  block_eqb b (table_of (ncols k) rids) && nodupb N.eqb rids.
+Definition c02_violation2 (c : case2) : bool :=
+  negb (forallb (fun kb => good_block2 (fst kb) (snd kb)) (sends (concat (d_obs c)))).
+
+Definition mismatches2 (cs : list case2) : list Z := map d_id (filter model_mismatch2 cs).
+Definition c01_violations2 (cs : list case2) : list Z := map d_id (filter c01_violation2 cs).
+Definition c02_violations2 (cs : list case2) : list Z := map d_id (filter c02_violation2 cs).
